@@ -1,0 +1,16 @@
+//go:build verif && !windows
+
+package daemon
+
+import (
+	"os"
+	"time"
+)
+
+// verifPause is a schedule hook for verification (build tag verif): it delays the launcher right after the daemon
+// has been started, for the duration given in GLB_VERIF_PAUSE. Inert unless that variable is set.
+func verifPause() {
+	if d, err := time.ParseDuration(os.Getenv("GLB_VERIF_PAUSE")); err == nil && d > 0 {
+		time.Sleep(d)
+	}
+}
